@@ -843,12 +843,12 @@ def gen_c07(tier, seed):
         scens.append({"id": sid("C07", "race", i), "props": ["C07"], "mode": "conc", "tags": ["backup-vs-backup"], "steps": steps})
     # two backups that both need a content whose block file is the zero-length leftover of a killed write
     for i in range(6 if tier == "quick" else 60):
-        o = rng.choice([{"H": 1000, "M": 1000, "S": 0}, {"H": 2, "M": 3, "S": 0}, {"H": 1000, "M": 1000, "S": 1000}])
+        o = rng.choice([{"H": 1000, "M": 1000, "S": 0}, {"H": 2, "M": 3, "S": 0}, {"H": 1000, "M": 1000, "S": 1}])
         shared = bytes([rng.choice([1, 2, 3])]) * rng.randrange(2, 4)
         t0 = [node("/", "Dir"), node("/a", "File", shared), node("/b", "File", bytes([5]) * 2)]
         ta = [node("/", "Dir"), node("/a", "File", shared), node("/c", "File", bytes([6]) * 3, mt=(1600000021, 0))]
         tb = [node("/", "Dir"), node("/a", "File", shared), node("/d", "File", bytes([7]) * 2, mt=(1600000022, 0))]
-        steps = [{"op": "tree", "tree": t0}, bk(o, crash_at=rng.randrange(9, 16), crash_empty=True),
+        steps = [{"op": "tree", "tree": t0}] + ([bk(o)] if i % 2 else []) + [{"op": "leftover_block", "content": list(shared)},
                  {"op": "conc_sweep", "actors": [bk(o, actor="bk1", tree=ta), bk(o, actor="bk2", tree=tb)],
                   "preemptions": 2, "sample": 60 if tier == "quick" else 1000, "seed": seed * 100 + i,
                   "then": [{"op": "restore_all"}]}]
